@@ -1217,6 +1217,77 @@ func specNetFound(t *bart.Table[NetworkType], ip netip.Addr) bool { return false
 //@   loop 2 invariant i.networks != nil && fresh(i.networks)
 
 // =====================================================================
+// C10 — replayed handshakes do not create or replace tunnels
+// =====================================================================
+//
+// CheckAndComplete registers the new tunnel (one call of unlockedAddHostInfo,
+// counted by `added`) exactly when it returns a nil error, and never when
+//   - some tunnel held for the peer's address was created from the very same
+//     handshake packet (a replay: ErrAlreadySeen), checked for every tunnel in
+//     the address's list, or
+//   - the primary tunnel for the address is one we accepted as responder and
+//     its peer-reported handshake time is not older than the new one's
+//     (ErrExistingHostInfo), or
+//   - the local index is held by another established or pending tunnel
+//     (ErrLocalIndexCollision, C29).
+// specHostAt / specHostLen describe the list of tunnels held for an address
+// (the extra list when there is one, else the single primary).
+
+//@ func specHostLen
+//@   pure
+func specHostLen(hm *HostMap, a netip.Addr) int {
+	if has(hm.moreHosts, a) {
+		return len(hm.moreHosts[a])
+	}
+	if has(hm.Hosts, a) {
+		return 1
+	}
+	return 0
+}
+
+//@ func specHostAt
+//@   pure
+func specHostAt(hm *HostMap, a netip.Addr, m int) *HostInfo {
+	if has(hm.moreHosts, a) {
+		return hm.moreHosts[a][m]
+	}
+	return hm.Hosts[a]
+}
+
+//@ func (*HostMap).unlockedGetHostList
+//@   inline
+//@ func (*HostMap).unlockedAddHostInfo
+//@   trusted registers the tunnel in the hostmap (address lists, Indexes, RemoteIndexes); what it does to them is C28
+//@   effect added
+
+//@ func (*HandshakeManager).CheckAndComplete
+//@   props C10
+//@   abstract bytes.Equal
+//@   ghost added int = 0
+//@   ghost j int
+//@   requires hm != nil && hm.mainHostMap != nil && hm.l != nil && hostinfo != nil && len(hostinfo.vpnAddrs) >= 1
+//@   requires[primary] implies(has(hm.mainHostMap.Hosts, hostinfo.vpnAddrs[0]) && hm.mainHostMap.Hosts[hostinfo.vpnAddrs[0]] != nil, hm.mainHostMap.Hosts[hostinfo.vpnAddrs[0]].ConnectionState != nil)
+//@   requires[list]    forall(func(m int) bool { return implies(0 <= m && m < specHostLen(hm.mainHostMap, hostinfo.vpnAddrs[0]), specHostAt(hm.mainHostMap, hostinfo.vpnAddrs[0], m) != nil) })
+//@   requires[pending] implies(has(hm.indexes, hostinfo.localIndexId), hm.indexes[hostinfo.localIndexId] != nil)
+//@   requires[remote]  implies(has(hm.mainHostMap.RemoteIndexes, hostinfo.remoteIndexId) && hm.mainHostMap.RemoteIndexes[hostinfo.remoteIndexId] != nil, len(hm.mainHostMap.RemoteIndexes[hostinfo.remoteIndexId].vpnAddrs) >= 1)
+//@   old a0 = hostinfo.vpnAddrs[0]
+//@   old ex = hm.mainHostMap.Hosts[hostinfo.vpnAddrs[0]]
+//@   old held = has(hm.mainHostMap.Hosts, hostinfo.vpnAddrs[0]) && hm.mainHostMap.Hosts[hostinfo.vpnAddrs[0]] != nil
+//@   old older = hm.mainHostMap.Hosts[hostinfo.vpnAddrs[0]].lastHandshakeTime >= hostinfo.lastHandshakeTime && !hm.mainHostMap.Hosts[hostinfo.vpnAddrs[0]].ConnectionState.initiator
+//@   old replayj = bytes.Equal(hostinfo.HandshakePacket[handshakePacket], specHostAt(hm.mainHostMap, hostinfo.vpnAddrs[0], j).HandshakePacket[handshakePacket])
+//@   old n0 = specHostLen(hm.mainHostMap, hostinfo.vpnAddrs[0])
+//@   old inMain = has(hm.mainHostMap.Indexes, hostinfo.localIndexId)
+//@   old inPendingOther = has(hm.indexes, hostinfo.localIndexId) && hm.indexes[hostinfo.localIndexId].hostinfo != hostinfo
+//@   ensures[once]      added <= 1 && (added == 1) == (result1 == nil)
+//@   ensures[replay]    implies(held && 0 <= j && j < n0 && replayj, result1 == ErrAlreadySeen)
+//@   ensures[older]     implies(held && older, result1 == ErrAlreadySeen || result1 == ErrExistingHostInfo)
+//@   ensures[existing]  implies(result1 == ErrExistingHostInfo, result0 == ex && held && older)
+//@   ensures[collision] implies(inMain || inPendingOther, result1 != nil)
+//@   ensures[errors]    result1 == nil || result1 == ErrAlreadySeen || result1 == ErrExistingHostInfo || result1 == ErrLocalIndexCollision
+//@   loop 1 invariant forall(func(m int) bool { return implies(0 <= m && m < rangeindex && m < n0, !bytes.Equal(hostinfo.HandshakePacket[handshakePacket], specHostAt(hm.mainHostMap, a0, m).HandshakePacket[handshakePacket])) })
+//@   loop 1 assigns nothing
+
+// =====================================================================
 // C38 — allow lists: longest prefix with a safe default (query side)
 // =====================================================================
 //
